@@ -75,4 +75,10 @@ META = {
         "note": "fraction-table precedence is only exercised (no panic), its values are not observable through the public API",
         "technique": "runtime monitoring: consistency walk + independent layering model + guarded use",
     },
+    "C10": {
+        "text": "Conservation monitor (in = out) over generated quantity multisets in many insertion/merge orders, over grouped ingredients and cookware of generated recipes, over shopping lists of recipe sequences, and over aisle categorisation with synonym-collision shapes.",
+        "design_ref": "DESIGN.md §6 C10",
+        "note": "totals are computed with the converter's own unit definitions (their correctness is C09's business)",
+        "technique": "runtime monitoring: conservation oracle over recorded inputs and outputs",
+    },
 }
